@@ -563,7 +563,27 @@ def ok_edge_of(body, call, extra_transparent=None):
             e = try_edges(body, c.bb)
             if e:
                 edges.append(e[0])
+    edges += _direct_match_edges(body, tainted, ok=True)
     return _nearest_first(body, call.bb, edges)
+
+
+def _direct_match_edges(body, tainted, ok):
+    """`match r {Ok(..) .., Err(..) ..}` / `if let Err(e) = r {..}` written out instead of `?`: SwitchInt on the discriminant
+    of a (whole) tainted local of Result / Option type"""
+    out = []
+    for bb in body.live_blocks():
+        t = body.term(bb)
+        if t["t"] != "sw":
+            continue
+        for s in body.blocks[bb]["s"]:
+            if s[0] == "A" and s[2][0] == "disc" and op_local(t["d"]) == s[1][0] and len(s[2][1]) == 1 and s[2][1][0] in tainted:
+                ty = body.ty(s[2][1][0])
+                m = {v: x for v, x in t["targets"]}
+                if ty.startswith("core::result::Result<"):
+                    out.append((bb, m.get(0 if ok else 1, t["else"])))
+                elif ty.startswith("core::option::Option<"):
+                    out.append((bb, m.get(1 if ok else 0, t["else"])))
+    return out
 
 
 def _nearest_first(body, frm, edges):
@@ -590,6 +610,7 @@ def err_edge_of(body, call, extra_transparent=None):
             e = try_edges(body, c.bb)
             if e:
                 edges.append(e[1])
+    edges += _direct_match_edges(body, tainted, ok=False)
     return _nearest_first(body, call.bb, edges)
 
 
